@@ -1,6 +1,8 @@
 """C17 Layered HTTP connections compose adapters without side effects."""
 import base64
 import copy
+import io
+import urllib.error
 import json
 import random
 from urllib.parse import urlencode
@@ -68,12 +70,25 @@ class Resp:
         return {}
 
 
+class ErrBody(io.BytesIO):
+    def __init__(self, method):
+        super().__init__(b"")
+        self._method = method
+
+    def getheaders(self):
+        return []
+
+
 class Opener:
     def __init__(self):
         self.reqs = []
+        self.fail_next = False
 
     def open(self, request):
         self.reqs.append(request)
+        if self.fail_next:
+            self.fail_next = False
+            raise urllib.error.HTTPError(request.full_url, 503, "unavailable", {}, ErrBody(request.method))
         return Resp(request.method)
 
 
@@ -325,6 +340,26 @@ def _run_history(ctx, rng, case):
                     ctx.count("connections_described_between_requests")
                 except Exception:
                     ctx.count("describing_a_connection_raises(observed)")
+            if rng.random() < 0.07 and not (own_auth and layer_auth):
+                # the server answers with an error: the exception reaches the caller, the request was the right
+                # one, and the connection works as before afterwards
+                op.fail_next = True
+                try:
+                    getattr(c, verb)(path, params=params, data=data, headers=headers)
+                    fail("http-error-swallowed", {"step": tag})
+                except urllib.error.HTTPError:
+                    ctx.count("requests_answered_with_an_http_error")
+                except Exception as err:
+                    fail("request-raises", {"step": tag, "type": type(err).__name__, "msg": str(err)[:150]})
+                if len(op.reqs) != n_before + 1:
+                    fail("not-exactly-one-request-sent", {"step": tag, "sent": len(op.reqs) - n_before})
+                if (params, data, headers) != keep:
+                    fail("caller-objects-modified", {"step": tag})
+                log_save = list(log)
+                del log[:]
+                check_req(op.reqs[-1], (exp[0], exp[1], exp[2], exp[3], []), tag + " (http error)")
+                n_before = len(op.reqs)
+                del log_save
             try:
                 ret = getattr(c, verb)(path, params=params, data=data, headers=headers)
             except Exception as err:
